@@ -7,9 +7,9 @@ import re
 
 import vlib
 
-OUTMAP = {'success': 'success', 'error': 'error_out', 'cancelled_early': 'cancelled_early'}
+OUTMAP = {}       # plugin output names are the model's
 DET_RETRIES = 3
-WFOUT = {'success': 'o'}      # the families of Engine.tla have one workflow output, called "o"
+DEFAULT_WFOUT = {'success': 'o'}      # the families of Engine.tla have one workflow output, called "o"
 ERRMAP = {'nooutputs': 'nooutputs', 'nosteps': 'nosteps', 'resolvestage': 'resolvefail', 'resolveoutput': 'resolvefail'}
 
 
@@ -17,10 +17,11 @@ def nz(x):
     return 'nil' if x is None else x
 
 
-def project(evs, ost):
+def project(evs, ost, wfout=None):
     """evs: raw events of ONE run (including the events of its steps), ost: object id -> step id.
     Returns the list of abstract events."""
     out = []
+    WFOUT = DEFAULT_WFOUT if wfout is None else wfout
     for e in evs:
         k = e['ev']
         s = e.get('step') or ost.get(e.get('obj'))
@@ -90,12 +91,83 @@ def project(evs, ost):
     return [dict(fields, **x) for x in out]
 
 
-def one_run_events(trace_path):
+def one_run_events(trace_path, wfout=None):
     evs = vlib.read_trace(trace_path)
     runs, objrun = vlib.split_runs(evs)
     ost = vlib.obj_steps(evs)
     res = []
     for ru in runs:
         if ru['parent'] is None:
-            res.append(project(ru['events'], ost))
+            res.append(project(ru['events'], ost, wfout))
     return res
+
+
+def node_of(ref):
+    """engine node id ('steps.a.outputs.success', 'steps.a.outputs') -> Engine.tla node tuple; None for the workflow input"""
+    parts = ref.split('.')
+    if parts[0] != 'steps':
+        return None
+    if len(parts) == 3:
+        return ['st', parts[1], parts[2]]
+    if len(parts) == 4:
+        if parts[2] in ('crashed', 'deploy_failed'):
+            raise KeyError(ref)       # evaluating these engine-generated outputs fails (KNOWN_FINDINGS KF-C08): outside the fragment
+        return ['so', parts[1], parts[2], parts[3]]
+    raise ValueError(ref)
+
+
+def tree_refs(t):
+    """node ids a tree refers to, or None when the tree uses a construct Engine.tla does not model (tags)"""
+    k = t['t']
+    if k == 'lit':
+        return []
+    if k == 'ref':
+        return list(t['refs'])
+    if k in ('map', 'list'):
+        out = []
+        for kid in (t['kids'].values() if k == 'map' else t['kids']):
+            r = tree_refs(kid)
+            if r is None:
+                return None
+            out += r
+        return out
+    return None
+
+
+def custom_of(wf):
+    """the Custom record of Engine.tla for an abstract workflow, or None when the workflow is outside the modelled
+    fragment (plugin steps whose input / wait_for / deploy fields are literals and plain references, no enabled / stop_if,
+    untagged outputs)"""
+    try:
+        return _custom_of(wf)
+    except KeyError:
+        return None
+
+
+def _custom_of(wf):
+    steps = sorted(wf['steps'])
+    refs = {}
+    for sid in steps:
+        d = wf['steps'][sid]
+        if d['kind'] != 'plugin' or d.get('pstep', 'work') != 'work':
+            return None
+        per = {'starting': [], 'deploy': []}
+        for f, t in d['fields'].items():
+            if f not in ('input', 'wait_for', 'deploy', 'closure_wait_timeout'):
+                return None
+            r = tree_refs(t)
+            if r is None:
+                return None
+            st = 'deploy' if f == 'deploy' else 'starting'
+            for x in r:
+                n = node_of(x)
+                if n is not None and n not in per[st]:
+                    per[st].append(n)
+        refs[sid] = per
+    outs = {}
+    for oid, t in wf['outputs'].items():
+        r = tree_refs(t)
+        if r is None:
+            return None
+        outs[oid] = [n for n in (node_of(x) for x in dict.fromkeys(r)) if n is not None]
+    return {'steps': steps, 'refs': refs, 'outputs': outs}
